@@ -869,6 +869,29 @@ def rule_guard_set(ck, facts, R="C12.pairing"):
     ck.floor(R, "guarded_refcount_sites", n, 2)
 
 
+
+def rule_wrapper_released(ck, facts, R="C12.return"):
+    """giving up a heap closure always gives up its heap wrapper"""
+    lang = facts.crate(roles.LANG)
+    n = 0
+    for f in lang.fns:
+        if "::runtime::vm" not in f.path or f.kind not in ("assoc", "fn") or "::test" in f.path:
+            continue
+        names = [(callee(t) or "").split("::")[-1] for _, t in f.calls()]
+        if "drop_closure" not in names or "heap_release" not in names:
+            continue
+        n += 1
+        rel_blocks = {b for b, t in f.calls() if (callee(t) or "").split("::")[-1] == "heap_release"}
+        seen = reachable(f, 0, avoid=rel_blocks)
+        skipped = [b for b in seen if f.term(b)[KIND] == "return"]
+        key = "wrapper-released|%s" % f.short.split("::")[-1]
+        if skipped:
+            ck.bad(R, key, "%s drops the closure behind a heap handle on some paths without releasing the heap object that wraps it (a return is reachable without `heap_release`): a closure that is applied in place and never closed leaves one heap object behind per evaluation" % f.short, f.where())
+        else:
+            ck.ok(R, key, {"fn": f.short.split("::")[-1]})
+    ck.floor(R, "closure_wrapper_releasers", n, 1)
+
+
 def rule_release_order(ck, facts, R="C12.offsets"):
     """what a dying object owns is read before the object is given back"""
     from ..cfg import dominators
@@ -922,6 +945,7 @@ def run(ck, facts, tier):
     rule_vm_walker_offsets(ck, facts)
     rule_release_order(ck, facts)
     rule_return_arms(ck, facts)
+    rule_wrapper_released(ck, facts)
     rule_creation_registers(ck, facts)
     rule_walkers(ck, facts)
     rule_predicates(ck, facts)
